@@ -47,6 +47,7 @@ func (c12) Plan(tier string, seed int64) []mon.Workload {
 		{Name: "redeclare", N: int64(len(c12RedeclForms) * len(c12ShadowPairs) * 2), Exhaustive: true},
 		{Name: "after-guard", N: int64(len(c12GuardForms) * len(c12ShadowPairs)), Exhaustive: true},
 		{Name: "subjects", N: int64(len(c12SubjOps) * len(c12SubjSetups) * len(c12SubjSpell)), Exhaustive: true},
+		{Name: "between", N: int64(len(c12SubjOps) * len(c12Between) * 4), Exhaustive: true},
 	}
 }
 
@@ -254,6 +255,9 @@ func c12Subjects(i int64) ([]*gt.T, *ref.Point) {
 func (c12) build(c *mon.Ctx, workload string, i int64) ([]*gt.T, *ref.Point) {
 	if workload == "subjects" {
 		return c12Subjects(i)
+	}
+	if workload == "between" {
+		return c12BetweenCase(i)
 	}
 	if workload == "shadowing" {
 		return c12Shadowing(i)
@@ -528,3 +532,40 @@ func runExtractCase(c *mon.Ctx, stmtsIn []*gt.T, pt *ref.Point, cell string) {
 
 var _ = strings.Contains
 var _ = fmt.Sprint
+
+// between (exhaustive): the same extraction twice on the same key of the same
+// point, with the key's content replaced in between in every way a script can
+// replace it (rename away and rename another key onto it, drop and re-create,
+// overwrite, move to a tag, shadow by a variable ...). The second extraction
+// sees what the key holds THEN (or nothing, if the key is gone).
+var c12Between = []string{
+	"rename(tmp, S)\nrename(S, o)", "drop_key(S)\nrename(S, o)", "add_key(S, B)", "rename(S, o)", "drop_key(S)\nadd_key(S, B)", "set_tag(S, B)", "drop_key(S)", "rename(tmp, S)",
+	"S = B", "rename(tmp, S)\nadd_key(S, B)", "rename(tmp, S)\nrename(S, o)\nrename(o, tmp)", "rename(tmp, S)\nrename(S, tmp)", "set_tag(S)\nrename(tmp, S)\nrename(S, o)",
+	"rename(tmp, S)\nrename(t2, o)\nrename(S, t2)", "if true {\n  rename(tmp, S)\n}\nfor e in [1] {\n  rename(S, o)\n}",
+}
+
+func c12BetweenCase(i int64) ([]*gt.T, *ref.Point) {
+	variant := int(i % 4) // key message / k, subject initially a field / a tag
+	i /= 4
+	bw := c12Between[int(i)%len(c12Between)]
+	op := c12SubjOps[int(i)/len(c12Between)]
+	key := []string{"message", "k"}[variant%2]
+	pt := ref.NewPoint("m", map[string]string{"bt": "by"}, map[string]any{"b1": int64(4), "o": op[2]}, time.Unix(1600000000, 0))
+	if variant/2 == 0 {
+		pt.Fields[key] = op[1]
+	} else {
+		pt.Tags[key] = op[1]
+	}
+	q := "\"" + strings.ReplaceAll(op[2], "\"", "\\\"") + "\""
+	run := strings.ReplaceAll(op[0], "S", key)
+	text := run + strings.ReplaceAll(strings.ReplaceAll(bw, "S", key), "B", q) + "\n" + run + "p(get_key(message), get_key(k), get_key(o), get_key(tmp), get_key(t2))\n"
+	o := drive.Parse("between", text)
+	if o.Err != nil {
+		panic("c12: between program does not parse: " + text + ": " + o.Err.Error())
+	}
+	l, err := gt.FromStmts(o.Stmts)
+	if err != nil {
+		panic(err)
+	}
+	return gt.CloneStmts(l), pt
+}
